@@ -118,6 +118,9 @@ void AbortInvocation(int why);  // 1 = hang (ninja would block forever), 2 = ste
 /// Redirects fd 1/2 to the capture file; the harness' own reports go to fd 100 (old stdout).
 void InitCapture();
 
+/// Effects of a command that outlives a crashed ninja and completes on its own.
+void CompleteOrphan(vfs::Disk* d, RunResult* res, const RunConfig& cfg, int idx);
+
 uint64_t Fnv(const std::string& s);
 std::string Hex64(uint64_t v);
 
